@@ -119,6 +119,173 @@ theorem examples_cover_catalogue :
       ≥ catalogue.length := by
   decide +kernel
 
+/-! ### The reference is what `docs/gen_checks.py` writes (any catalogue) -/
+
+theorem dictSet_fresh {α : Type} (d : List (String × α)) (k : String) (v : α) (h : k ∉ d.map (·.1)) :
+    dictSet d k v = d ++ [(k, v)] := by
+  induction d with
+  | nil => rfl
+  | cons x r ih =>
+    obtain ⟨k', v'⟩ := x
+    simp only [List.map_cons, List.mem_cons, not_or] at h
+    have hne : ¬ k' = k := fun e => h.1 e.symm
+    simp [dictSet, hne, ih h.2]
+
+theorem dictSet_length_le {α : Type} (d : List (String × α)) (k : String) (v : α) :
+    (dictSet d k v).length ≤ d.length + 1 := by
+  induction d with
+  | nil => simp [dictSet]
+  | cons x r ih => obtain ⟨k', v'⟩ := x; simp only [dictSet]; split <;> simp <;> omega
+
+theorem dictSet_present {α : Type} (d : List (String × α)) (k : String) (v : α) (h : k ∈ d.map (·.1)) :
+    (dictSet d k v).length = d.length := by
+  induction d with
+  | nil => simp at h
+  | cons x r ih =>
+    obtain ⟨k', v'⟩ := x
+    simp only [dictSet]
+    split
+    · simp
+    · rename_i hne
+      simp only [List.map_cons, List.mem_cons] at h
+      rcases h with h | h
+      · exact absurd h.symm hne
+      · simp [ih h]
+
+theorem dictSet_keys {α : Type} (d : List (String × α)) (k : String) (v : α) :
+    ∀ x, x ∈ (dictSet d k v).map (·.1) ↔ x = k ∨ x ∈ d.map (·.1) := by
+  induction d with
+  | nil => simp [dictSet]
+  | cons y r ih =>
+    obtain ⟨k', v'⟩ := y
+    intro x
+    simp only [dictSet]
+    split
+    · rename_i he; subst he; simp
+    · simp only [List.map_cons, List.mem_cons, ih x]
+      constructor
+      · rintro (h | h | h) <;> simp [h]
+      · rintro (h | h | h) <;> simp [h]
+
+theorem foldl_fresh (acc : List (String × DocEntry)) (cs : List CheckInfo)
+    (h : (acc.map (·.1) ++ cs.map CheckInfo.codeStr).Nodup) :
+    cs.foldl (fun d c => dictSet d c.codeStr c.docEntry) acc = acc ++ cs.map (fun c => (c.codeStr, c.docEntry)) := by
+  induction cs generalizing acc with
+  | nil => simp
+  | cons c r ih =>
+    have hc : c.codeStr ∉ acc.map (·.1) := by
+      intro hm
+      have := List.nodup_append.mp h
+      exact this.2.2 _ hm _ (by simp) rfl
+    rw [List.foldl_cons, dictSet_fresh _ _ _ hc, ih]
+    · simp
+    · simpa [List.append_assoc] using h
+
+/-- with no two checks printing the same code, the dict holds one item per check, in catalogue order -/
+theorem docsDict_of_unique (cat : List CheckInfo) (h : (cat.map CheckInfo.codeStr).Nodup) :
+    docsDict cat = cat.map (fun c => (c.codeStr, c.docEntry)) := by
+  simpa [docsDict] using foldl_fresh [] cat (by simpa using h)
+
+/-- **The generated reference has exactly one section per check** (name, categories and text of that check), whatever the
+    catalogue holds, as long as no two checks print the same code … -/
+theorem genDocs_perm (cat : List CheckInfo) (h : (cat.map CheckInfo.codeStr).Nodup) :
+    (genDocs cat).Perm (cat.map CheckInfo.docEntry) := by
+  unfold genDocs
+  rw [docsDict_of_unique cat h]
+  have := (List.mergeSort_perm (cat.map (fun c => (c.codeStr, c.docEntry))) (fun a b => decide (a.1 ≤ b.1))).map (·.2)
+  simpa [List.map_map, Function.comp_def] using this
+
+/-- … **in the order of the printed codes** -/
+theorem genDocs_sorted (cat : List CheckInfo) :
+    ((docsDict cat).mergeSort (fun a b => decide (a.1 ≤ b.1))).Pairwise (fun a b => a.1 ≤ b.1) := by
+  have := List.pairwise_mergeSort (le := fun (a b : String × DocEntry) => decide (a.1 ≤ b.1))
+    (by intro a b c hab hbc; simp only [decide_eq_true_eq] at *; exact String.le_trans hab hbc)
+    (by intro a b; simp only [Bool.or_eq_true, decide_eq_true_eq]; exact String.le_total a.1 b.1)
+    (docsDict cat)
+  simpa using this
+
+theorem foldl_length_le (acc : List (String × DocEntry)) (cs : List CheckInfo) :
+    (cs.foldl (fun d c => dictSet d c.codeStr c.docEntry) acc).length ≤ acc.length + cs.length := by
+  induction cs generalizing acc with
+  | nil => simp
+  | cons c r ih =>
+    have h1 := ih (dictSet acc c.codeStr c.docEntry)
+    have h2 := dictSet_length_le acc c.codeStr c.docEntry
+    simp only [List.foldl_cons, List.length_cons]; omega
+
+theorem foldl_keys (acc : List (String × DocEntry)) (cs : List CheckInfo) (x : String) :
+    x ∈ (cs.foldl (fun d c => dictSet d c.codeStr c.docEntry) acc).map (·.1)
+      ↔ x ∈ acc.map (·.1) ∨ x ∈ cs.map CheckInfo.codeStr := by
+  induction cs generalizing acc with
+  | nil => simp
+  | cons c r ih =>
+    rw [List.foldl_cons, ih, dictSet_keys]
+    simp only [List.map_cons, List.mem_cons]
+    constructor
+    · rintro ((h | h) | h) <;> simp [h]
+    · rintro (h | h | h) <;> simp [h]
+
+/-- **Why uniqueness of the printed codes is part of the property**: two checks that print the same code share one
+    section, so the reference is shorter than the catalogue — a check is missing from it. -/
+theorem genDocs_collision (pre mid post : List CheckInfo) (a b : CheckInfo) (h : a.codeStr = b.codeStr) :
+    (genDocs (pre ++ a :: mid ++ b :: post)).length < (pre ++ a :: mid ++ b :: post).length := by
+  unfold genDocs docsDict
+  rw [List.length_map, (List.mergeSort_perm _ _).length_eq]
+  have e : pre ++ a :: mid ++ b :: post = (pre ++ a :: mid) ++ b :: post := by simp
+  rw [e, List.foldl_append, List.foldl_cons]
+  have hmem : b.codeStr ∈ ((pre ++ a :: mid).foldl (fun d c => dictSet d c.codeStr c.docEntry) []).map (·.1) := by
+    rw [foldl_keys]; right; simp [h]
+  have h1 := foldl_length_le (dictSet ((pre ++ a :: mid).foldl (fun d c => dictSet d c.codeStr c.docEntry) []) b.codeStr b.docEntry) post
+  have h2 := dictSet_present _ b.codeStr b.docEntry hmem
+  have h3 := foldl_length_le [] (pre ++ a :: mid)
+  simp only [List.length_append, List.length_cons, List.length_nil] at *
+  omega
+
+theorem nodup_map_inj {α β : Type} (l : List α) (f : α → β) (h : (l.map f).Nodup) :
+    ∀ a b, a ∈ l → b ∈ l → f a = f b → a = b := by
+  induction l with
+  | nil => intro a b ha; simp at ha
+  | cons x r ih =>
+    simp only [List.map_cons, List.nodup_cons, List.mem_map, not_exists, not_and] at h
+    intro a b ha hb hab
+    simp only [List.mem_cons] at ha hb
+    rcases ha with rfl | ha <;> rcases hb with rfl | hb
+    · rfl
+    · exact absurd hab.symm (h.1 b hb)
+    · exact absurd hab (h.1 a ha)
+    · exact ih h.2 a b ha hb hab
+
+/-- the printed codes of today's catalogue are pairwise different (stronger than `codes_unique`: `FURB1`+`23` and
+    `FURB`+`123` are different keys that print alike) -/
+theorem printed_codes_unique : (catalogue.map CheckInfo.codeStr).Nodup := by decide +kernel
+
+/-- **docs/checks.md as shipped is what the generator writes for today's catalogue**, section for section and in order -/
+theorem docs_are_generated : docEntries = genDocs catalogue := by
+  have hperm : docEntries.Perm (genDocs catalogue) :=
+    docs_agree.1.trans (genDocs_perm catalogue printed_codes_unique).symm
+  have hsorted : (genDocs catalogue).Pairwise (fun a b => a.code ≤ b.code) := by
+    have h := genDocs_sorted catalogue
+    rw [docsDict_of_unique catalogue printed_codes_unique] at h
+    unfold genDocs
+    rw [docsDict_of_unique catalogue printed_codes_unique, List.pairwise_map]
+    refine h.imp_of_mem ?_
+    intro a b ha hb hab
+    have key : ∀ x ∈ (catalogue.map (fun c => (c.codeStr, c.docEntry))).mergeSort (fun a b => decide (a.1 ≤ b.1)),
+        x.2.code = x.1 := by
+      intro x hx
+      have hx' := (List.mergeSort_perm _ _).subset hx
+      obtain ⟨c, _, rfl⟩ := List.mem_map.mp hx'
+      rfl
+    rw [key a ha, key b hb]; exact hab
+  have hsorted' : docEntries.Pairwise (fun a b => a.code ≤ b.code) :=
+    docs_agree.2.imp (fun h h2 => String.lt_irrefl _ (String.lt_trans h h2))
+  have hnd : (docEntries.map (·.code)).Nodup := by decide +kernel
+  refine List.Perm.eq_of_pairwise ?_ hsorted' hsorted hperm
+  intro a b ha hb hab hba
+  have hb' : b ∈ docEntries := hperm.symm.subset hb
+  have hc : a.code = b.code := String.le_antisymm hab hba
+  exact nodup_map_inj docEntries (·.code) hnd a b ha hb' hc
+
 /-! ### What `--explain` prints first -/
 
 /-- the header of an explanation is the check's own code, its name and its categories in brackets, in that order -/
